@@ -163,6 +163,15 @@ def check(rep, elems, sep, cfg, rng=None):
             why = dup_consistent(whole)
             if why:
                 why = f'after parse(commit={commit}, {kw}): ' + why
+            # ... and through a THIRD and FOURTH committed parse under yet other settings (stale book-keeping of "which flags
+            # did the previous parse generate" shows only then)
+            for kw2 in (rng.choice(OTHER_SETTINGS), {'suppress_lot_divs': False, 'qq_depth_max': None}, rng.choice(OTHER_SETTINGS)):
+                if why:
+                    break
+                whole.parse(**{k: v for k, v in kw2.items() if v is not None})
+                why = dup_consistent(whole)
+                if why:
+                    why = f'after a further parse({kw2}): ' + why
     if not why and rng is not None and rng.chance(1, 3):
         # "an aliquot written directly before a lot group qualifies those lots as a lot division unless divisions are suppressed":
         # suppression (and break_halves) switched ON in the configuration and OFF again by an explicit keyword must parse like a
